@@ -7,6 +7,7 @@ R3  sample/bin timing: force_bin is refreshed from bin on every path through upd
     and overwritten at the top only for variables that report same-step forces
 R4  update_system_force subtracts the previously applied ABF force exactly when the variable neither subtracts
     applied forces itself nor reports same-step total forces
+R6  the gradient grid and the count grid it normalises by have one shape (shared with C15-R8)
 """
 from . import expr as X
 from . import cond as C
@@ -164,7 +165,13 @@ def r5(F, rep):
         rep.add("C04-R5", "value_output|mean", g.loc(divs[0]) if divs else g.loc(), "value_output() divides the sum of the bin by its positive count", ok, func=g.q)
 
 
+def r6(F, rep):
+    from .rules_c15 import companion_shape
+    companion_shape(F, rep, "C04-R6")
+
+
 def run(F, rep, tier):
+    r6(F, rep)
     r1(F, rep)
     r2(F, rep)
     r3(F, rep)
